@@ -7,7 +7,7 @@ import sqlite3
 from .. import common, fault, gen, observe, probe
 from ..driver import CacheDriver, Mismatch
 from ..model import Ambiguous
-from ..sched import Recorder, Sched
+from ..sched import Recorder, Sched, store_gates
 from . import c03, c05
 
 PROP = 'C08'
@@ -573,6 +573,8 @@ def concurrent_program(dc, sc, res, rng, label):
     reopen_at = [rng.randrange(0, len(prog[ci]) + 1) if late and rng.random() < 0.5 else -1 for ci in range(nclients)]
     opened = []
     sch = Sched(rng, clock, strategy=rng.choice(['random', 'preempt', 'ops']), preempt_points={rng.randrange(0, 100)})
+    if store_gates(sch, rng, dc):
+        res.count('schedules_with_attribute_store_gates')
     rec = Recorder(sch)
     # in half of the programs one or two statements / file operations of some client fail while the others go on
     # (never BEGIN, COMMIT or ROLLBACK, see DESIGN 7.18)
